@@ -180,8 +180,17 @@ type node struct {
 	deposit  int    // deployed-code length (create kinds, oReturn); >= span
 	keep     uint64 // gas left for the init frame before the oversized RETURN (oCodeStoreOOG)
 	parent   *node
+	alias    *node  // leaf only: this frame runs the program of an EARLIER leaf again (same callee address / same init code and salt)
 	gasArg   uint64 // gas operand the parent passes (call family)
 	need     uint64 // estimated gas need of this frame
+}
+
+// prog is the node whose program this frame executes (itself unless it re-enters an earlier leaf).
+func (n *node) prog() *node {
+	if n.alias != nil {
+		return n.alias
+	}
+	return n
 }
 
 func (n *node) children() []*node {
@@ -240,6 +249,9 @@ func (n *node) find(id int) *node {
 func (n *node) String() string {
 	var sb strings.Builder
 	fmt.Fprintf(&sb, "%s#%d", kindName[n.kind], n.id)
+	if n.alias != nil {
+		fmt.Fprintf(&sb, "=again#%d", n.alias.id)
+	}
 	if n.value > 0 {
 		fmt.Fprintf(&sb, "(v%d)", n.value)
 	}
@@ -248,6 +260,10 @@ func (n *node) String() string {
 		sb.WriteString("(gas=all)")
 	case gasTight:
 		fmt.Fprintf(&sb, "(gas=%d%%)", n.tightPct)
+	}
+	if n.alias != nil {
+		sb.WriteString(">" + outName[n.alias.out])
+		return sb.String()
 	}
 	sb.WriteString("[")
 	for i, s := range n.steps {
@@ -336,7 +352,7 @@ func estLen(n *node) uint64 {
 	for _, s := range n.steps {
 		if s.k == sChild {
 			if s.child.kind.creates() {
-				l += 60 + estLen(s.child)
+				l += 60 + estLen(s.child.prog())
 			} else {
 				l += 70
 			}
@@ -385,11 +401,11 @@ func budget(n *node, predFail func(*node) bool) uint64 {
 			after = satAdd(after, 400_000)
 		case sChild:
 			c := s.child
-			cn := budget(c, predFail)
+			cn := budget(c.prog(), predFail)
 			if c.kind.creates() || c.gasMode == gasAll {
 				ovh := uint64(80_000)
 				if c.kind.creates() {
-					ovh = satAdd(1_200_000, satMul(estLen(c), 20))
+					ovh = satAdd(1_200_000, satMul(estLen(c.prog()), 20))
 				}
 				x := satAdd(satMul(cn, 65)/64, 1000)
 				if predFail(c) {
@@ -508,8 +524,8 @@ func (c *compiler) body(n *node) []byte {
 		case sChild:
 			ch := s.child
 			if ch.kind.creates() {
-				init := c.body(ch)
-				c.inits[ch.id] = init
+				init := c.body(ch.prog())
+				c.inits[ch.prog().id] = init
 				lbl := fmt.Sprintf("init%d", ch.id)
 				blobs = append(blobs, blob{lbl, init})
 				a.push(uint64(len(init)))
@@ -517,7 +533,7 @@ func (c *compiler) body(n *node) []byte {
 				a.push(initOff)
 				a.op(opCODECOPY)
 				if ch.kind == kCreate2 {
-					a.push(uint64(ch.id)) // salt
+					a.push(uint64(ch.prog().id)) // salt
 				}
 				a.push(uint64(len(init)))
 				a.push(initOff)
@@ -538,7 +554,9 @@ func (c *compiler) body(n *node) []byte {
 				}
 				a.op(opPOP)
 			} else {
-				c.installs[codeAddr(ch.id)] = c.body(ch)
+				if ch.alias == nil {
+					c.installs[codeAddr(ch.id)] = c.body(ch)
+				}
 				a.push(uint64(ch.span - 1))
 				a.push(uint64(ch.id + 1))
 				a.push(0)
@@ -546,7 +564,7 @@ func (c *compiler) body(n *node) []byte {
 				if ch.kind == kCall || ch.kind == kCallCode {
 					a.push(ch.value)
 				}
-				a.pushAddr(codeAddr(ch.id))
+				a.pushAddr(codeAddr(ch.prog().id))
 				a.push(ch.gasArg)
 				switch ch.kind {
 				case kCall:
